@@ -131,6 +131,9 @@ func (d *BasePeerLeecher) loop() {
 }
 
 func (d *BasePeerLeecher) routine() {
+	if d.done {
+		return
+	}
 	if d.callback.Done() {
 		d.Terminate()
 		return
